@@ -106,6 +106,8 @@ def target_kind(label):
         return "stored-block"
     if label == "chain":
         return "chain"
+    if label.startswith("#"):
+        return "by-number"
     return "transaction-or-cell"
 
 
@@ -227,7 +229,15 @@ def run(tier):
     rnd = random.Random(V.seed())
     chosen = pick(hs, n, rnd)
     V.build_harness("c14")
-    stats = run_histories(c, [(i, hs[i]) for i in chosen], nodes, par)
+    # directed: a LONG abandoned reorganisation.  Branch X (7 empty blocks) is the main chain; branch Y (7 empty blocks, stored
+    # unverified: never heavier) gets an eighth block that commits a transaction outside its proposal window (an invalid block): the node verifies Y5..Y12 in
+    # one database transaction - the reward rule of the later Y blocks reads the number index THROUGH that transaction, which
+    # names Y blocks - and abandons it at Y12.  Every by-number answer must still name branch X.
+    longfork = ([{"k": "block", "g": "X", "h": 5 + i, "v": "none", "verdict": "ok", "cyc": "none"} for i in range(7)]
+                + [{"k": "block", "g": "Y", "h": 5 + i, "v": "none", "verdict": "ok", "cyc": "none"} for i in range(7)]
+                + [{"k": "block", "g": "Y", "h": 12, "v": "wb", "verdict": "other", "cyc": "none"}]
+                + [{"k": "block", "g": "X", "h": 12, "v": "none", "verdict": "ok", "cyc": "none"}])
+    stats = run_histories(c, [(i, hs[i]) for i in chosen] + [(len(hs), longfork)], nodes, par)
     stats["histories_exported"] = len(hs)
     stats["histories_replayed"] = len(chosen)
     c.set("replay", stats)
